@@ -53,6 +53,17 @@ static std::string cfgclass(const sg::Config & c) {
     return std::string(c.C < 64 ? "tinyC" : c.C < 0x20000 ? "C<buffer" : c.C == 0x20000 ? "C=buffer" : "C>buffer") + (c.level ? "" : ",level0");
 }
 
+// deflate's worst case: one object whose payload is high-entropy and longer than two containers, in containers above the size
+// of zlib's literal buffer, at a level that really compresses (stored blocks, output larger than input)
+static void add_incompressible(sg::Seq & s, sg::Config & c, uint64_t seed, long sel, long csel) {
+    static const uint32_t cs[] = {20000, 65536, 0x20000, 0x20001, 300000}; c.C = cs[csel % 5]; c.level = 1 + (int)(csel % 9); c.tiny_limits = false;
+    const vr::ClassInfo * ci = ol::find_class(sel % 2 ? "AppText" : "EnvironmentVariable"); ObjectHeaderBase * o = ci->make(); Obj ob(ci, o);
+    const vr::Field & pl = ob.get(sel % 2 ? "text" : "data"); pl.resize((size_t)700000 + (size_t)(sel % 7));      // more than two of the largest container used here
+    Rng r(Rng::mix(seed ^ 0x1C0, (uint64_t)sel)); uint8_t * w = (uint8_t *)pl.wdata(); size_t n = pl.nbytes();
+    for (size_t i = 0; i + 8 <= n; i += 8) { uint64_t v = r.next(); memcpy(w + i, &v, 8); } for (size_t i = n & ~(size_t)7; i < n; i++) w[i] = (uint8_t)r.next();
+    ob.get("objectTimeStamp").set_u64(0x1000000ULL + s.objs.size()); s.objs.push_back(o); s.cis.push_back(ci);
+}
+
 // ---------------------------------------------------------------------------------------------------------------- C01
 struct C01Acc { long sessions = 0, objects = 0; std::set<std::string> shapes; std::map<std::string, long> perclass; std::set<int> levels; std::set<uint32_t> csizes; std::string sample; };
 static void c01_one(uint64_t seed, long idx, const std::string & path, C01Acc & acc) {
@@ -66,6 +77,7 @@ static void c01_one(uint64_t seed, long idx, const std::string & path, C01Acc & 
             const vr::Field & pl = ob.get((idx / 97) % 2 ? "text" : "data"); pl.resize((size_t)c.C * 2 + c.C / 3); memset(pl.wdata(), (idx / 97) % 3 == 0 ? 0 : (idx / 97) % 3 == 1 ? 0xff : 'z', pl.nbytes());
             ob.get("objectTimeStamp").set_u64(0x1000000ULL + s.objs.size()); s.objs.push_back(o); s.cis.push_back(ci);
         }
+        if (idx % 97 == 11) add_incompressible(s, c, seed, idx / 97, idx / 97);
         std::string ctx = " [" + c.str() + "] case=" + std::to_string(idx) + " " + sg::describe_seq(s, 4);
         std::string e = write_file(path, s, c);
         if (!e.empty()) { hc::viol("write-session:" + e, ctx); return; }
@@ -149,6 +161,7 @@ static bool gen_one(uint64_t seed, long idx, const std::string & dir, long K) {
         bool small = (sidx % 2 == 0);
         if (!small && c.C < 100) c.C = sg::CSIZES[5 + (sidx + k) % 7];
         sg::Seq s; sg::make_sequence(s, seed, sidx, small ? 8 : 30, !small && (sidx % 4) == 1, small ? 2500 : 200000);
+        if (sidx % 29 == 3) add_incompressible(s, c, seed, sidx / 29, sidx / 29 + k);      // same object for the K configurations of a sequence
         Rng r(Rng::mix(seed ^ 0x4EAD, (uint64_t)idx));
         HdrVals h; h.apiNumber = (uint32_t)ol::boundary_value(r, 4); h.applicationId = (uint8_t)ol::boundary_value(r, 1); h.compressionLevel = (uint8_t)ol::boundary_value(r, 1);
         h.applicationMajor = (uint8_t)ol::boundary_value(r, 1); h.applicationMinor = (uint8_t)ol::boundary_value(r, 1); h.applicationBuild = (uint32_t)ol::boundary_value(r, 4);
